@@ -143,15 +143,28 @@ Qed.
 
 (* ---- tuples ---- *)
 Definition TInvC o d (S0 : list (list Value)) (F : list Tracer) : Prop :=
-  forall i, trace_seq' o (S d) (col i S0) (Ok (TUnknown false)) = Ok (nth_tracer F i).
+  forall i, exists T b, trace_seq' o (S d) (col i S0) (Ok (TUnknown false)) = Ok T /\ nth_tracer F i = mk b T.
 
-Lemma tinvc_step o d S0 F l F' : TInvC o d S0 F -> tgo (trace o) d 0 l F = Ok F' -> TInvC o d (S0 ++ [l]) F'.
+Lemma adjust_mk n F i : exists b, nth_tracer (arity_adjust F n) i = mk b (nth_tracer F i).
 Proof.
-  intros Hcol H. destruct (tgo_spec o d l 0 F F' H) as (_ & _ & Hhi & Hin).
-  intros i. rewrite col_app, fold_app, Hcol. unfold col at 1. cbn [flat_map]. rewrite app_nil_r.
+  rewrite nth_adjust. destruct (Nat.ltb i n && Nat.ltb i (length F)) eqn:E1; [exists false; reflexivity|].
+  destruct (Nat.ltb i n || Nat.ltb i (length F)) eqn:E2; [exists true; reflexivity|]. exists false. cbn [mk].
+  apply Bool.orb_false_iff in E2 as [_ E2]. apply Nat.ltb_ge in E2. symmetry. apply nth_tracer_beyond, E2.
+Qed.
+Lemma mk_mk a c t : mk a (mk c t) = mk (a || c) t.
+Proof. destruct a, c; cbn [mk orb]; try reflexivity. apply mark_idem. Qed.
+
+Lemma tinvc_step o d S0 F l F' : TInvC o d S0 F -> tgo (trace o) d 0 l (arity_adjust F (length l)) = Ok F' -> TInvC o d (S0 ++ [l]) F'.
+Proof.
+  intros Hcol H. destruct (tgo_spec o d l 0 _ F' H) as (_ & _ & Hhi & Hin).
+  intros i. destruct (Hcol i) as (T & b & RT & ET). destruct (adjust_mk (length l) F i) as (b' & Ea). rewrite ET, mk_mk in Ea.
+  rewrite col_app, fold_app, RT. unfold col at 1. cbn [flat_map]. rewrite app_nil_r.
   destruct (nth_error l i) as [x|] eqn:E.
-  - cbn [trace_seq' fold_left bind]. apply (Hin i x E).
-  - cbn [trace_seq' fold_left]. rewrite Hhi; [reflexivity|]. apply nth_error_None in E. lia.
+  - cbn [trace_seq' fold_left bind]. pose proof (Hin i x E) as Hx. cbn [Nat.add] in Hx. rewrite Ea, trace_mk in Hx.
+    destruct (b' || b).
+    + destruct (trace o (S d) x T) as [T'| |p]; cbn [omark] in Hx; try discriminate. injection Hx as Hx. exists T', true. split; [reflexivity|symmetry; exact Hx].
+    + exists (nth_tracer F' i), false. split; [exact Hx|reflexivity].
+  - cbn [trace_seq' fold_left]. exists T, (b' || b). split; [reflexivity|]. rewrite Hhi; [exact Ea|]. apply nth_error_None in E. lia.
 Qed.
 
 Lemma tgo_progress o d : forall l pos acc,
@@ -169,12 +182,21 @@ Lemma tuples_complete_from o d : Nat.leb max_depth d = false -> forall S1 S0 n F
   exists t, trace_seq' o d (map VTuple S1) (Ok (TTuple n F)) = Ok t.
 Proof.
   intros Hd. induction S1 as [|l r IH]; intros S0 n F Hinv Hall; [eexists; reflexivity|].
-  assert (Hgo : exists F', tgo (trace o) d 0 l F = Ok F').
+  assert (Hgo : exists F', tgo (trace o) d 0 l (arity_adjust F (length l)) = Ok F').
   { apply tgo_progress. intros j x Hx. destruct (Hall j) as (T & HT). change (l :: r) with ([l] ++ r) in HT. rewrite app_assoc, col_app in HT.
-    destruct (fold_prefix _ _ _ _ _ _ HT) as (T1 & HT1). rewrite col_app, fold_app, (Hinv j) in HT1. unfold col in HT1. cbn [flat_map] in HT1. rewrite Hx in HT1.
-    cbn [app trace_seq' fold_left bind] in HT1. exists T1. exact HT1. }
+    destruct (fold_prefix _ _ _ _ _ _ HT) as (T1 & HT1). destruct (Hinv j) as (T0 & b & R0 & E0). rewrite col_app, fold_app, R0 in HT1. unfold col in HT1. cbn [flat_map] in HT1. rewrite Hx in HT1.
+    cbn [app trace_seq' fold_left bind] in HT1. destruct (adjust_mk (length l) F j) as (b' & Ea). cbn [Nat.add]. rewrite Ea, E0, mk_mk, trace_mk, HT1.
+    destruct (b' || b); eexists; reflexivity. }
   destruct Hgo as (F' & Hgo). cbn [map]. rewrite ts_cons, trace_tuple_eq. unfold ensure_tuple. rewrite Hd. cbn [upgradable bind]. rewrite Hgo. cbn [bind].
   apply (IH (S0 ++ [l]) n F' (tinvc_step o d S0 F l F' Hinv Hgo)). intros i. rewrite <- app_assoc. apply Hall.
+Qed.
+
+Lemma tinvc_first o d l F1 : tgo (trace o) d 0 l (repeat (TUnknown false) (length l)) = Ok F1 -> TInvC o d [l] F1.
+Proof.
+  intros E. destruct (tgo_spec o d l 0 _ F1 E) as (_ & _ & Hhi & Hin). intros i. unfold col. cbn [flat_map]. rewrite app_nil_r.
+  destruct (nth_error l i) as [x|] eqn:Ex.
+  - cbn [trace_seq' fold_left bind]. pose proof (Hin i x Ex) as Hx. cbn [Nat.add] in Hx. rewrite nth_tracer_repeat in Hx. exists (nth_tracer F1 i), false. split; [exact Hx|reflexivity].
+  - cbn [trace_seq' fold_left]. exists (TUnknown false), false. split; [reflexivity|]. rewrite Hhi, nth_tracer_repeat; [reflexivity|]. apply nth_error_None in Ex. lia.
 Qed.
 
 Lemma tuple_complete o d ls n0 : Nat.leb max_depth d = false ->
@@ -182,10 +204,11 @@ Lemma tuple_complete o d ls n0 : Nat.leb max_depth d = false ->
   exists t, trace_seq' o d (map VTuple ls) (Ok (TUnknown n0)) = Ok t.
 Proof.
   intros Hd Hall. destruct ls as [|l r]; [eexists; reflexivity|].
-  assert (E : trace o d (VTuple l) (TUnknown n0) = trace o d (VTuple l) (TTuple n0 (repeat (TUnknown false) (length l)))).
-  { rewrite !trace_tuple_eq. unfold ensure_tuple. rewrite Hd. reflexivity. }
-  cbn [map]. rewrite ts_cons, E, <- ts_cons. apply (tuples_complete_from o d Hd (l :: r) [] n0 _); [|exact Hall].
-  intros i. rewrite nth_tracer_repeat. reflexivity.
+  assert (Hgo : exists F1, tgo (trace o) d 0 l (repeat (TUnknown false) (length l)) = Ok F1).
+  { apply tgo_progress. intros j x Hx. rewrite nth_tracer_repeat. destruct (Hall j) as (T & HT). change (l :: r) with ([l] ++ r) in HT. rewrite col_app in HT.
+    destruct (fold_prefix _ _ _ _ _ _ HT) as (T1 & HT1). unfold col in HT1. cbn [flat_map] in HT1. rewrite Hx in HT1. cbn [app trace_seq' fold_left bind] in HT1. eexists; exact HT1. }
+  destruct Hgo as (F1 & Hgo). cbn [map]. rewrite ts_cons, trace_tuple_eq. unfold ensure_tuple. rewrite Hd. cbn [upgradable t_nullable bind]. rewrite Hgo. cbn [bind].
+  apply (tuples_complete_from o d Hd r [l] n0 F1 (tinvc_first o d l F1 Hgo)). exact Hall.
 Qed.
 
 Lemma tuple_depth_ok o d l r n0 t : trace_seq' o d (map VTuple (l :: r)) (Ok (TUnknown n0)) = Ok t -> Nat.leb max_depth d = false.
@@ -343,14 +366,16 @@ Section Repeat.
         set (TS := x0 :: r0) in *. set (LS := map snd TS) in *.
         assert (Hd : Nat.leb max_depth d = false) by (unfold LS, TS in E1; cbn [map] in E1; apply (tuple_depth_ok o d _ _ false u E1)).
         destruct (tuple_projection o d LS false u ltac:(unfold LS, TS; discriminate) E1) as (F & -> & Hlen & Hcol).
-        assert (Hall : forall i, exists T, trace_seq' o (S d) (col i (LS ++ LS)) (Ok (TUnknown false)) = Ok T /\ teq (nth_tracer F i) T).
-        { intros i. rewrite col_app. destruct (IH (S d) (col i LS) _ (Hh i) (Hcol i)) as (T2 & R2 & Hq). exists T2. split; assumption. }
+        assert (Hall : forall i, exists T, trace_seq' o (S d) (col i (LS ++ LS)) (Ok (TUnknown false)) = Ok T /\ teq (nth_tracer F i) (mk (tflag i LS) T)).
+        { intros i. rewrite col_app. destruct (Hcol i) as (T0 & R0 & ->). destruct (IH (S d) (col i LS) _ (Hh i) R0) as (T2 & R2 & Hq). exists T2. split; [exact R2|apply teq_mk, Hq]. }
         destruct (tuple_complete o d (LS ++ LS) false Hd (fun i => let (T, HT) := Hall i in ex_intro _ T (proj1 HT))) as (u2 & E2).
         rewrite (strip0 o d (vs ++ vs)) by (rewrite cores_app, Hc, <- map_app; first [apply containers_map; exact Htc|discriminate]).
         rewrite cores_app, Hc, <- map_app, nullish_dup, tups_collection, map_app. fold LS. rewrite E2, omk_ok. eexists. split; [reflexivity|]. apply teq_mk.
         destruct (tuple_projection o d (LS ++ LS) false u2 ltac:(unfold LS, TS; discriminate) E2) as (F2 & -> & Hlen2 & Hcol2).
         apply teq_tuple; [rewrite Hlen, Hlen2, maxlen_app; lia|].
-        intros i. destruct (Hall i) as (T & RT & Hq). rewrite (Hcol2 i) in RT. injection RT as <-. exact Hq.
+        intros i. destruct (Hall i) as (T & RT & Hq). destruct (Hcol2 i) as (T2 & R2 & ->). rewrite RT in R2. injection R2 as <-.
+        assert (Ef : tflag i (LS ++ LS) = tflag i LS) by (unfold tflag; rewrite maxlen_app, tmiss_app, Nat.max_id; destruct (tmiss i LS); reflexivity).
+        rewrite Ef. exact Hq.
       + (* enum variants *)
         destruct (cores vs) as [|c0 r0] eqn:Hc.
         { destruct (cores_nil_atoms o vs Hc) as (l & Hl). exists t. split; [|apply (leaf_result_teq o d vs l t Hl H1)]. rewrite trace_seq_same in *. apply (leaf_repeat o d vs l t Hl H1). }
